@@ -9,3 +9,4 @@ pub mod sweep;
 pub mod util;
 pub mod linecol;
 pub mod pratt;
+pub mod tt;
